@@ -1063,7 +1063,7 @@ class Rotate(Plane):
         super().__init__()
 
         if unit == 'radians':
-            angle *= 180/np.pi
+            angle = angle * 180/np.pi
         self.angle = -angle
         self.order = order
 
